@@ -41,6 +41,11 @@ pub fn grammar_literals() -> Vec<J> {
     for neg in ["", "-"] { for i in ints { for f in fracs { for e in exps { if neg == "-" && !(i == "0" || i == "1" || i == "21000") { continue; } v.push(J::Num(format!("{neg}{i}{f}{e}"))); } } } }
     let pre = ["", "0x", "0X", "+", "-", "+0x", "-0x", "0b", "0o", " ", "00", "0x0"]; let digs = ["0", "1", "10", "ff", "FF", "fF", "123456789", "18446744073709551616", "ffffffffffffffffffffffffffffffffffffffffffffffffffffffffffffffff", "10000000000000000000000000000000000000000000000000000000000000000"]; let suf = ["", " ", ".0", "e1", "_", "n", "\n", "h"];
     for p in pre { for d in digs { for s in suf { v.push(J::Str(format!("{p}{d}{s}"))); } } }
+    // a sign, a blank, a separator or a second prefix at EVERY position of a valid spelling (between the radix prefix and
+    // the digits, inside the digits, after them): a parser that strips the prefix and hands the rest to a routine with a
+    // grammar of its own (optional sign, separators) accepts what is not a number
+    for base in ["0x5208", "21000", "0xff", "0x0", "0", "0b11", "0o17", "0X10"] { for ins in ["+", "-", " ", "_", "0x", ".", "\t", "'", ",", "0"] { for pos in 0..=base.len() {
+        let t = format!("{}{ins}{}", &base[..pos], &base[pos..]); let j = J::Str(t); if !v.contains(&j) { v.push(j); } } } }
     v
 }
 pub fn slots() -> Vec<(Kind, bool, &'static str, usize)> { // (kind, with chain id, field, position in the signed RLP list)
